@@ -184,9 +184,11 @@ impl<'template, 'env> State<'template, 'env> {
                     .collect(),
                 self.loaded_templates.clone(),
             )),
+            // an included template starts its own inheritance chain: the templates
+            // the including one extends are not part of it.
             BlockState::Replace(blocks) => Some(SavedBlockState::Replaced(
                 std::mem::replace(&mut self.blocks, blocks),
-                self.loaded_templates.clone(),
+                std::mem::take(&mut self.loaded_templates),
             )),
         };
 
